@@ -158,3 +158,17 @@ package labels
 //@   ensures result == nil
 //@   ensures bounds == nil ==> (forall k uint64 :: has(idx.Blocks, k) == old(has(idx.Blocks, k)))
 //@   ensures bounds != nil ==> (forall k uint64 :: has(idx.Blocks, k) == (old(has(idx.Blocks, k)) && !outsideB(bounds, unpackc(k & 0x1FFFFF), unpackc((k >> 21) & 0x1FFFFF), unpackc((k >> 42) & 0x1FFFFF))))
+
+// Voxel-count deltas of a block write (C08: the per-body index is fed from these). Decided for the
+// fast path of a solid block (one label): the whole block's voxel count is ADDED for the new block and
+// SUBTRACTED for the previous one, label 0 is ignored, no other label's delta changes. The general
+// path (sub-block loops) is not under contract.
+//@ func Block.calcNumLabels
+//@   prop C08
+//@   safety_off
+//@   requires delta != nil
+//@   modifies delta[*]
+//@   ensures len(b.Labels) == 1 && b.Labels[0] != 0 && add ==> delta[b.Labels[0]] == old(delta[b.Labels[0]]) + int32(int64(b.Size[0]) * int64(b.Size[1]) * int64(b.Size[2]))
+//@   ensures len(b.Labels) == 1 && b.Labels[0] != 0 && !add ==> delta[b.Labels[0]] == old(delta[b.Labels[0]]) - int32(int64(b.Size[0]) * int64(b.Size[1]) * int64(b.Size[2]))
+//@   ensures len(b.Labels) == 1 ==> (forall l uint64 :: l != b.Labels[0] || l == 0 ==> has(delta, l) == old(has(delta, l)) && delta[l] == old(delta[l]))
+//@   ensures len(b.Labels) == 0 ==> (forall l uint64 :: has(delta, l) == old(has(delta, l)) && delta[l] == old(delta[l]))
